@@ -80,6 +80,7 @@ package decoration
 //@   loop#1 invariant [slots-so-far] forall k int :: {cellStrs[k]} 0 <= k && k <= rangeindex ==> fields[slot(ds, k)] == aligned(cellStrs[k].S, cellStrs[k].W, e.colWidths[k], colAligns[k])
 //@   loop#1 invariant ds.Left != "" ==> fields[0] == ds.Left
 //@   loop#1 decreases len(e.colWidths) - rangeindex
+//@   exit assert [content-line-is-the-joined-pieces-then-the-line-end] result == cat(joined(heap[string], fields, " "), e.eol) @C03
 //@   call Join#1 before assert [one-space-either-side-of-every-slot] arg1 == " " && arg0 === fields @C03,C04
 //@   call Join#1 before assert [every-slot-is-its-cell-line-aligned] forall k int :: {cellStrs[k]} 0 <= k && k < len(e.colWidths) ==> slot(ds, k) < len(fields) && fields[slot(ds, k)] == aligned(cellStrs[k].S, cellStrs[k].W, e.colWidths[k], colAligns[k]) @C04
 //@   call Join#1 before assert [outer-dividers-in-place] len(e.colWidths) >= 1 ==> (ds.Left != "" ==> fields[0] == ds.Left) && (ds.Right != "" ==> fields[len(fields) - 1] == ds.Right) @C03
